@@ -3,8 +3,6 @@
 package sim
 
 import (
-	"runtime"
-
 	"github.com/goreleaser/nfpm/v2/simyield"
 )
 
@@ -19,22 +17,6 @@ var (
 	instrGIDs  [16]uint64
 	instrN     int
 )
-
-//go:norace
-func curGID() uint64 {
-	var buf [48]byte
-	n := runtime.Stack(buf[:], false)
-	// "goroutine 123 [running]:"
-	var id uint64
-	for i := len("goroutine "); i < n; i++ {
-		c := buf[i]
-		if c < '0' || c > '9' {
-			break
-		}
-		id = id*10 + uint64(c-'0')
-	}
-	return id
-}
 
 //go:norace
 func instrRegister(id int) {
